@@ -72,8 +72,9 @@ CLAIMED = {
  "C09": dict(text="Theorems (any field, any D, any state): the mean is the zero mode of the transform; every conservation-form linear symbol vanishes at the mean mode; the mean-mode coefficient of "
                   "conservative convection (multi- and single-channel), mean-fixed gradient norm and Cahn-Hilliard vanishes for every input; hence every ETDRK order 0-4 (stage programs translated "
                   "from the source) leaves the mean unchanged; every constant equilibrium (lambda u + N(u) = 0) is a fixed point of ETD1/ETD2RK/ETD3RK/ETD4RK for every h.",
-             note="PARTIAL: the zero mean of the NON-conservative single-channel convection is proved (antisymmetry of the dealiased convolution sum under m -> -m, any D, 2K < N); energy/enstrophy "
-                  "neutrality of the convective terms and the zero mean of the 2D vorticity and 3D rotational (divergence-free states) forms are not proved; they are decided on the real code by the witness oracle for all listed steppers x orders 1-4 x D x N parity.",
+             note="PARTIAL: also proved (antisymmetry of the dealiased convolution sums under m -> -m, any field of characteristic 0, 2K < N): zero mean of the non-conservative single-channel and 1D "
+                  "default convection and of the 2D vorticity convection for every state, and of the Leray-projected 3D rotational form on divergence-free states. Energy/enstrophy "
+                  "neutrality of the convective terms is not proved; they are decided on the real code by the witness oracle for all listed steppers x orders 1-4 x D x N parity.",
              technique="Rocq proof (stage-program algebra, list induction; tableaux fixed points) + exact symbol correspondence + conservation oracle on the real code", design="§4 C09"),
  "C12": dict(text="Theorems: for 0<k<N/2 the 2D injection array equals N^2/2 * (-k s gamma) at stored mode (0,k) and 0 elsewhere, the 3D one N^3/2 * (-/+ i gamma) at (0,+/-k,0) in channel 0 and 0 elsewhere "
                   "- the transforms of the documented -k(2pi/L)gamma cos and gamma sin (transform of a real harmonic proved from a primitive root); the 2D convection term vanishes identically on "
